@@ -6,6 +6,7 @@
 From Coq Require Import List ZArith Lia Bool Sorting.Sorted.
 From Sim Require Import Map Variant Current Kernel KScript KernelFrames KernelInv KernelTrace KernelFifo
      KernelTimers KernelFireTime KernelOrder.
+From Sim Require Import Net SimState Script CompositeProofs.
 Import ListNotations.
 Local Open Scope Z_scope.
 
@@ -167,3 +168,9 @@ Example C03_order_script_trace :
   [VR 0 0 0; VR 0 1 0; VR 0 2 0; VR 0 0 1; VH 0 1 (Some Aborted);
    VH 3000 3 (Some Success); VH 5000 2 (Some Success); VH 5000 4 (Some Success); VX 5000 7].
 Proof. vm_compute. reflexivity. Qed.
+
+(* ---- the same in the composite model as driven by a script (Proofs/CompositeProofs.v) ---- *)
+Theorem C03_in_the_composite_model_the_timer_queue_is_consistent :
+  forall v fuel pfuel (p : script), KInv task net logev (run_script v fuel pfuel p).
+Proof. exact composite_KInv. Qed.
+Print Assumptions C03_in_the_composite_model_the_timer_queue_is_consistent.
